@@ -119,8 +119,8 @@ def movdn (vm : Vm) (n : Nat) : Except Err Vm :=
 def validAddr (a : Nat) : Except Err Nat :=
   if a > u32max then .error (.addrOOB a) else .ok a
 
-/-- Execute one non-control operation (does not advance the clock). -/
-def step (vm : Vm) (op : Op) : Except Err Vm :=
+/-- Effect of one non-control operation on stack, memory, advice tape and `fmp`. -/
+def stepCore (vm : Vm) (op : Op) : Except Err Vm :=
   match op with
   | .noop => .ok vm
   | .assert code =>
@@ -366,10 +366,11 @@ def step (vm : Vm) (op : Op) : Except Err Vm :=
       match validAddr a with
       | .error e => .error e
       | .ok addr =>
+        if addr + 1 > u32max then .error (.addrOOB (addr + 1)) else
         let w0 := vm.mem.read vm.ctx addr
-        let w1 := vm.mem.read vm.ctx ((addr + 1) % two32)
+        let w1 := vm.mem.read vm.ctx (addr + 1)
         .ok (vm.setStack (w1.w3 :: w1.w2 :: w1.w1 :: w1.w0 :: w0.w3 :: w0.w2 :: w0.w1 :: w0.w0
-              :: s8 :: s9 :: s10 :: s11 :: (addr + 2) % two32 :: r))
+              :: s8 :: s9 :: s10 :: s11 :: (addr + 2) :: r))
     | _ => .error .stackUnderflow
   | .pipe =>
     match vm.stack with
@@ -377,13 +378,14 @@ def step (vm : Vm) (op : Op) : Except Err Vm :=
       match validAddr a with
       | .error e => .error e
       | .ok addr =>
+        if addr + 1 > u32max then .error (.addrOOB (addr + 1)) else
         match vm.adv with
         | t0 :: t1 :: t2 :: t3 :: t4 :: t5 :: t6 :: t7 :: rest =>
-          let m := (vm.mem.write vm.ctx addr ⟨t0, t1, t2, t3⟩).write vm.ctx ((addr + 1) % two32)
+          let m := (vm.mem.write vm.ctx addr ⟨t0, t1, t2, t3⟩).write vm.ctx (addr + 1)
                     ⟨t4, t5, t6, t7⟩
           .ok { vm with adv := rest, mem := m,
                         stack := t7 :: t6 :: t5 :: t4 :: t3 :: t2 :: t1 :: t0
-                          :: s8 :: s9 :: s10 :: s11 :: (addr + 2) % two32 :: r }
+                          :: s8 :: s9 :: s10 :: s11 :: (addr + 2) :: r }
         | _ => .error .adviceExhausted
     | _ => .error .stackUnderflow
   | .hperm =>
@@ -424,6 +426,13 @@ def step (vm : Vm) (op : Op) : Except Err Vm :=
     | _ => .error .stackUnderflow
   | .frie2f4 => .error (.unsupported "frie2f4")
   | .rcombbase => .error (.unsupported "rcombbase")
+
+/-- Execute one non-control operation.  It never advances the clock nor writes a trace row (that is
+    `tick`'s job); the projection makes this explicit so that it holds by construction. -/
+def step (vm : Vm) (op : Op) : Except Err Vm :=
+  match vm.stepCore op with
+  | .error e => .error e
+  | .ok r => .ok { r with clk := vm.clk, trace := vm.trace }
 
 end Vm
 end Miden
